@@ -136,6 +136,7 @@ def units():
 
 
 META = dict(
+    technique='CBMC 6.11 function contracts (dfcc) on extracted C; probe result type with ghost liveness; std::function and tbb::task_group reference models',
     level="proof",
     level_text="Sequential core of schedule()/AsyncTask with a probe result type (special members check liveness of the task's result storage) and a probe callable (execution counter), std::function as a closed-universe model: under the synchronous (Debug) backend AsyncTask's constructor is proved to execute the function exactly once, to leave the result member a live object holding exactly the returned value, constructed once, with finished() implying the result is complete; get() yields the stored value without consuming it; the destructor destroys the result exactly once; schedule() runs the callable exactly once.",
     level_note="NOT decided: 'eventually', every real schedule/interleaving, TBB task_arena/task_group, detached std::thread, std::packaged_task/std::future internals (async()), the internal enkiTS backend and the self-deleting LocalTask. Contracts are sequential; those clauses are assumptions.",
